@@ -40,6 +40,7 @@ class RaiseSpec:
     iff: bool = True               # True: raised exactly when `when`; False: may be raised only when `when`
     unchanged: bool = True         # frame: every heap field is left as it was
     tag: str = ""
+    post: Callable | None = None   # fn(old, new) -> clauses that must hold in the state the exception leaves behind
 
 
 @dataclass
@@ -50,6 +51,7 @@ class LoopSpec:
     index: str | None = None       # name of the ghost index variable for `for x in seq` loops
     unroll: bool = False
     locals: dict = field(default_factory=dict)        # local name -> T: coerce (e.g. an empty python list) before the loop
+    ghost: Callable | None = None                     # fn(view at loop entry) -> dict of ghost names (entry snapshots)
     step: Callable | None = None                      # fn(head_view, end_view) -> clauses proved for one arbitrary iteration
 
 
